@@ -61,6 +61,34 @@ def pairs(ctx, n):
         yield case, cfg
 
 
+def tie_profile_pairs(ctx, n):
+    """tie-rich approval elections with REPEATED ballots under the tie-breaking rules that read the profile (approval score) or the
+    costs, on both representations: the key of a tied project counts voters, not distinct ballots"""
+    from .C08 import tie_rich_election
+
+    rng = random.Random(ctx.rng.getrandbits(48))
+    for _ in range(n):
+        u = rng.random()
+        if u < 0.45:
+            case = core.gen_scoretie_election(rng)
+        elif u < 0.7:
+            # costs proportional to the number of supporters: projects with DIFFERENT approval scores reach the same new maximum load
+            case = core.gen_proportional_election(rng, btypes=("app",), m=(2, 5), n=(3, 8))
+        else:
+            case = tie_rich_election(rng)
+        if case.btype != "app":
+            case = Case(case.projects, case.budget, "app", core.gen_ballots(rng, "app", [nm for nm, _ in case.projects], 2, 7, distinct_hi=3), case.seed)
+        if len(case.entries()) == len(case.ballots) and case.ballots:
+            case = Case(case.projects, case.budget, "app", list(case.ballots) + [rng.choice(case.ballots)] * rng.randint(1, 3), case.seed)
+        cfg = rulegen.gen_rule_cfg(rng, case, rules=("phragmen",), allow_refuse=False)
+        cfg["tie"] = rng.choice(["app_score", "app_score", "min_cost", "max_cost"])
+        cfg["multi"] = rng.random() < 0.7
+        if not cfg["res"] and len(case.projects) > 5:
+            cfg["res"] = True
+        ctx.count("stream", "tie-rich, repeated ballots, tie rule " + cfg["tie"])
+        yield case, cfg
+
+
 def history_cfg(rng, case, multi):
     """configuration of one call inside a history: any tie rule, initial allocation, initial loads, resolute or not"""
     cfg = rulegen.gen_rule_cfg(rng, case, rules=("phragmen",), allow_refuse=False)
@@ -120,6 +148,7 @@ def run(ctx):
     items = ruleprops.run_items(ctx, pairs(ctx, ctx.scale(2000, 20000)), predicate, nontrivial)
     history.run_profile_history(ctx, ctx.scale(500, 5000), predicate, history_cfg)
     shared_init_stream(ctx, ctx.scale(400, 4000))
+    items += ruleprops.run_items(ctx, tie_profile_pairs(ctx, ctx.scale(1500, 10000)), predicate, nontrivial)
     ctx.extra["with_initial_loads"] = sum(1 for it in items if it.cfg.get("loads") is not None)
     ctx.extra["with_initial_allocation"] = sum(1 for it in items if it.cfg.get("init"))
 
